@@ -1,6 +1,7 @@
 //! C14 — logical lines are well-formed and cover every token.
 
 use super::common;
+use super::wf;
 use crate::exec;
 use crate::prop::{short, CaseOut, Ctx, Prop, Tier};
 use crate::rng::{self, Rng};
@@ -192,7 +193,7 @@ impl Prop for C14 {
                         Err((class, detail)) => {
                             // known finding: an own-line comment directly after the head keyword of a
                             // structured type or after `=` derails the type declaration parser
-                            let after_type_head = odd_after.iter().any(|t| matches!(t.as_str(), "class" | "record" | "interface" | "object" | "=" | "helper" | "packed" | "to" | "of" | "array" | "set" | "reference" | "function" | "procedure"));
+                            let after_type_head = odd_after.iter().any(|t| wf::is_type_head_word(t));
                             let class = if after_type_head && (class.starts_with("eof-line") || class.starts_with("parent")) { "comment-after-type-head".to_string() } else { class };
                             out.violate("C14", &class, format!("[{kind}] {detail}"), &input, None)
                         }
